@@ -1,0 +1,70 @@
+//go:build verif && linux
+
+package forkexec
+
+import "unsafe"
+
+// Verification hooks (build tag verif): values of package-level constants and variables as
+// the compiler sees them, and exported views of unexported helpers.
+
+var VerifConsts = map[string]int64{
+	"UnshareFlags":                   int64(UnshareFlags),
+	"bindRo":                         int64(bindRo),
+	"_AT_FDCWD":                      int64(_AT_FDCWD),
+	"SECCOMP_SET_MODE_FILTER":        SECCOMP_SET_MODE_FILTER,
+	"SECCOMP_FILTER_FLAG_TSYNC":      SECCOMP_FILTER_FLAG_TSYNC,
+	"_SECURE_NOROOT":                 _SECURE_NOROOT,
+	"_SECURE_NOROOT_LOCKED":          _SECURE_NOROOT_LOCKED,
+	"_SECURE_NO_SETUID_FIXUP":        _SECURE_NO_SETUID_FIXUP,
+	"_SECURE_NO_SETUID_FIXUP_LOCKED": _SECURE_NO_SETUID_FIXUP_LOCKED,
+	"_SECURE_KEEP_CAPS":              _SECURE_KEEP_CAPS,
+	"_SECURE_KEEP_CAPS_LOCKED":       _SECURE_KEEP_CAPS_LOCKED,
+	"LocClone":                       int64(LocClone),
+	"LocCloseWrite":                  int64(LocCloseWrite),
+	"LocUnshareUserRead":             int64(LocUnshareUserRead),
+	"LocGetPid":                      int64(LocGetPid),
+	"LocKeepCapability":              int64(LocKeepCapability),
+	"LocSetGroups":                   int64(LocSetGroups),
+	"LocSetGid":                      int64(LocSetGid),
+	"LocSetUid":                      int64(LocSetUid),
+	"LocDup3":                        int64(LocDup3),
+	"LocFcntl":                       int64(LocFcntl),
+	"LocSetSid":                      int64(LocSetSid),
+	"LocIoctl":                       int64(LocIoctl),
+	"LocMountRoot":                   int64(LocMountRoot),
+	"LocMountTmpfs":                  int64(LocMountTmpfs),
+	"LocMountChdir":                  int64(LocMountChdir),
+	"LocMount":                       int64(LocMount),
+	"LocMountMkdir":                  int64(LocMountMkdir),
+	"LocPivotRoot":                   int64(LocPivotRoot),
+	"LocUmount":                      int64(LocUmount),
+	"LocUnlink":                      int64(LocUnlink),
+	"LocMountRootReadonly":           int64(LocMountRootReadonly),
+	"LocChdir":                       int64(LocChdir),
+	"LocSetRlimit":                   int64(LocSetRlimit),
+	"LocSetNoNewPrivs":               int64(LocSetNoNewPrivs),
+	"LocDropCapability":              int64(LocDropCapability),
+	"LocSetCap":                      int64(LocSetCap),
+	"LocPtraceMe":                    int64(LocPtraceMe),
+	"LocStop":                        int64(LocStop),
+	"LocSeccomp":                     int64(LocSeccomp),
+	"LocSyncWrite":                   int64(LocSyncWrite),
+	"LocSyncRead":                    int64(LocSyncRead),
+	"LocExecve":                      int64(LocExecve),
+	"sizeofChildError":               int64(unsafe.Sizeof(ChildError{})),
+	"sizeofCloneArgs":                int64(unsafe.Sizeof(cloneArgs{})),
+	"dropCapHeader.Version":          int64(dropCapHeader.Version),
+	"dropCapData.Effective":          int64(dropCapData.Effective),
+	"dropCapData.Permitted":          int64(dropCapData.Permitted),
+	"dropCapData.Inheritable":        int64(dropCapData.Inheritable),
+}
+
+// byte strings handed to raw syscalls (with their terminating NUL)
+var VerifStrings = map[string]string{
+	"none": string(none), "slash": string(slash), "empty": string(empty), "tmpfs": string(tmpfs), "oldRoot": string(oldRoot),
+	"setGIDAllow": string(setGIDAllow), "setGIDDeny": string(setGIDDeny),
+}
+
+func VerifLocStrings() []string { return append([]string{}, locToString...) }
+
+func VerifPrepareFds(files []uintptr) ([]int, int) { return prepareFds(files) }
